@@ -420,11 +420,11 @@ fn symmetric_backgrounds() -> Vec<BgSpec> {
     ]
 }
 
-const INVOLUTION_DESC: &str = "product: every DNA count matrix of width 1..=4 over the 7-row C09 menu (2800) x 5 pseudocount specs x 5 backgrounds (strand-asymmetric ones included); \
+const INVOLUTION_DESC: &str = "product: every DNA count matrix of width 1..=4 over the 8-row C09 menu (4680) x 5 pseudocount specs x 5 backgrounds (strand-asymmetric ones included); \
     on each point the count, frequency, weight and scoring matrix: rc(rc(m)) == m (cells bit-for-bit, PartialEq, background, sequence count) and rc(m) == rows reversed + columns permuted by A<->T, C<->G, N<->N. \
     one evaluation = one matrix kind of one point; non-trivial = rc changes the count matrix (so the identity function would be caught). Frequency/weight/scoring matrices of points with a 0/0 row (NaN) are skipped";
 
-const COMMUTATION_DESC: &str = "product: the same 2800 count matrices x 5 strand-symmetric pseudocount specs (0, 0.1, 1, (.1,.2,.1,.2,.3), wildcard-only) x 6 strand-symmetric backgrounds (uniform, (.125,.375,.125,.375,0), \
+const COMMUTATION_DESC: &str = "product: the same 4680 count matrices x 5 strand-symmetric pseudocount specs (0, 0.1, 1, (.1,.2,.1,.2,.3), wildcard-only) x 6 strand-symmetric backgrounds (uniform, (.125,.375,.125,.375,0), \
     non-zero wildcard, A=T=0, C=G=0, from_counts(3,2,3,2,0)); five commutation identities per point: to_freq (allowance 2*gamma_{K+2} for the row-sum order), to_weight, FrequencyMatrix::to_scoring, WeightMatrix::to_scoring (bit-identical), \
     and the whole count->score chain (derived tolerance). non-trivial = point in the domain (no 0/0 row) and rc changes the count matrix";
 
@@ -742,6 +742,44 @@ struct Striped {
     r: StripedSequence<Dna, U32>,
 }
 
+/// Layout of the striped sequences handed to the scoring routines: 0 = as striped and configured once;
+/// 1 = configured for a WIDER motif first (look-ahead rows in excess, then configured again for the actual one);
+/// 2 = hand-built through `StripedSequence::new` with two spare sequence rows.
+fn relayout(s: StripedSequence<Dna, U32>, syms: &[Nucleotide], wrap: usize, layout: usize) -> StripedSequence<Dna, U32> {
+    let mut s = s;
+    match layout {
+        1 => {
+            s.configure_wrap(wrap + 4);
+        }
+        2 => {
+            let rows = s.matrix().rows() - s.wrap() + 2;
+            let mut m = lightmotif::dense::DenseMatrix::<Nucleotide, U32>::new(rows);
+            for (i, &x) in syms.iter().enumerate() {
+                m[i % rows][i / rows] = x;
+            }
+            s = StripedSequence::new(m, syms.len()).expect("StripedSequence::new rejected a matrix with spare rows");
+        }
+        _ => {}
+    }
+    s.configure_wrap(wrap);
+    s
+}
+
+fn stripe_pair_layout(pl: Pl, seq: &[u8], wrap: usize, layout: usize) -> Result<Striped, String> {
+    let syms: Vec<Nucleotide> = pm::to_symbols::<Dna>(seq);
+    let rsyms: Vec<Nucleotide> = pm::to_symbols::<Dna>(&pm::ref_rc_seq(seq));
+    catch(|| {
+        let (s, r): (StripedSequence<Dna, U32>, StripedSequence<Dna, U32>) = match pl {
+            Pl::Generic => {
+                let g = Pipeline::<Dna, Generic>::generic();
+                (g.stripe(&syms), g.stripe(&rsyms))
+            }
+            Pl::Arm(arm) => pm::with_arm(arm, || (EncodedSequence::<Dna>::new(syms.clone()).to_striped(), EncodedSequence::<Dna>::new(rsyms.clone()).to_striped())),
+        };
+        Striped { s: relayout(s, &syms, wrap, layout), r: relayout(r, &rsyms, wrap, layout) }
+    })
+}
+
 fn stripe_pair(pl: Pl, seq: &[u8], wrap: usize) -> Result<Striped, String> {
     let syms: Vec<Nucleotide> = pm::to_symbols::<Dna>(seq);
     let rsyms: Vec<Nucleotide> = pm::to_symbols::<Dna>(&pm::ref_rc_seq(seq));
@@ -950,7 +988,7 @@ fn run_mirror(ctx: &mut Ctx, rep: &mut Report, index: &mut u64) {
         "mirror_scores",
         "product: ALL DNA sequences over {A,C,T,G,N} of length 0..=6 (19531; thorough 0..=7, 97656) x every menu scoring matrix with M <= 3 \
          [integer-valued matrices of width 1..=3 (thorough ..=4) over 4 rows incl. a -inf wildcard cell, built with ScoringMatrix::new; log-odds matrices counts.to_freq(p).to_scoring(bg) for every count matrix of width 1..=3 \
-         over the 7-row C09 menu x 5 (pseudocount, background) combinations (thorough: all 25), points with a 0/0 row excluded] x {generic pipeline, dispatcher arms generic / sse2 / avx2 forced through force_backend + Pipeline::dispatch()} \
+         over the 8-row C09 menu x 5 (pseudocount, background) combinations (thorough: all 25), points with a 0/0 row excluded] x {generic pipeline, dispatcher arms generic / sse2 / avx2 forced through force_backend + Pipeline::dispatch()} \
          (striping through the same pipeline; ScoringMatrix::score under each arm as well for the integer matrices). Oracle: both score vectors have L-M+1 entries (none when L<M) and \
          rc(m).score(rc(s))[L-M-i] == m.score(s)[i], exactly for integer matrices / -inf, within 2*gamma_{M-1}*sum|terms| otherwise. one evaluation = one (sequence, matrix, pipeline); non-trivial = L >= M",
     );
@@ -1054,9 +1092,29 @@ fn same_class(x: f32, y: f32) -> bool {
 
 /// One (sequence, pipeline) point of the non-finite space.
 fn nonfinite_row(pl: Pl, seq: &[u8], prepared: &[Prepared], wrap: usize, rep: &mut Report) -> (u64, u64) {
-    let st = match stripe_pair(pl, seq, wrap) {
+    let mut tot = (0, 0);
+    for layout in 0..3 {
+        let (e, n) = nonfinite_row_layout(pl, seq, prepared, wrap, rep, layout);
+        tot = (tot.0 + e, tot.1 + n);
+    }
+    tot
+}
+
+fn nonfinite_row_layout(pl: Pl, seq: &[u8], prepared: &[Prepared], wrap: usize, rep: &mut Report, layout: usize) -> (u64, u64) {
+    let st = match stripe_pair_layout(pl, seq, wrap, layout) {
         Ok(st) => st,
-        Err(_) => return (0, 0), // reported by mirror_scores
+        Err(p) => {
+            rep.violation(
+                format!("C10 mirror_nonfinite {} layout {} stripe panic {}", pl.name(), layout, panic_class(&p)),
+                format!("building the striped sequences (layout {}) panicked: {}", layout, p),
+                || {
+                    let mut v = mirror_json(&prepared[0].spec, &prepared[0].cells, seq, pl, wrap);
+                    v["kind"] = json!("mirror_nonfinite");
+                    v
+                },
+            );
+            return (0, 0);
+        }
     };
     let rseq = pm::ref_rc_seq(seq);
     let mut evals = 0;
@@ -1114,6 +1172,7 @@ fn nonfinite_row(pl: Pl, seq: &[u8], prepared: &[Prepared], wrap: usize, rep: &m
             }
         };
         if let Some((sig, msg)) = fail {
+            let sig = if layout == 0 { sig } else { format!("{} [layout {}: {}]", sig, layout, if layout == 1 { "configured for a wider motif first" } else { "hand-built with spare rows" }) };
             rep.violation(format!("C10 mirror_nonfinite {} {}", pl.name(), sig), msg, || {
                 let mut v = mirror_json(&p.spec, &p.cells, seq, pl, wrap);
                 v["kind"] = json!("mirror_nonfinite");
@@ -1147,7 +1206,7 @@ fn run_mirror_nonfinite(ctx: &mut Ctx, rep: &mut Report, index: &mut u64) {
     rep.space(
         "mirror_nonfinite",
         "product: ALL DNA sequences over {A,C,T,G,N} of length 0..=5 (3906; thorough 0..=6, 19531) x every scoring matrix of width 1..=3 over a 4-row menu of small-integer cells mixed with NaN, +inf and -inf cells \
-         (\"any content\"; built with ScoringMatrix::new) x {generic pipeline, dispatcher arms generic / sse2 / avx2} x {pipeline score_into, scalar ScoringMatrix::score_position}. \
+         (\"any content\"; built with ScoringMatrix::new) x {generic pipeline, dispatcher arms generic / sse2 / avx2} x {pipeline score_into, scalar ScoringMatrix::score_position} x striped-sequence layouts {configured once; configured for a wider motif first; hand-built with two spare sequence rows}. \
          Oracle: the IEEE sum of a window's cells has the same class in every summation order (NaN if a NaN cell or both infinities occur, else +inf / -inf / the exact integer sum): \
          position i of m on s and position L-M-i of rc(m) on rc(s) both equal that value (NaN matches NaN)",
     );
